@@ -27,10 +27,10 @@ decreases ast
         Replace('E5', 'nfa.set_pattern(&ast.to_string());', 'nfa.set_pattern(&verif_ast_to_string(&ast));',
                 why='TRUSTED: Display of the AST (pattern text, debugging only) is opaque'),
         Replace('E5', 'Err(unsupported!($_))', 'Err(verif_unsupported())', occ='all', why='TRUSTED: error message construction (format!) is opaque'),
-        ForLoop('for _ in 0..*c {', it='__r1', occ=1, spec=RANGE_LOOP.format(it='__r1'), label='try_from_ast.exactly'),
-        ForLoop('for _ in 0..*c {', it='__r2', occ=2, spec=RANGE_LOOP.format(it='__r2'), label='try_from_ast.at_least'),
-        ForLoop('for _ in 0..*least {', it='__r3', spec=RANGE_LOOP.format(it='__r3'), label='try_from_ast.bounded_least'),
-        ForLoop('for _ in *least..*most {', it='__r4', spec=RANGE_LOOP.format(it='__r4'), label='try_from_ast.bounded_most'),
+        ForLoop('for _ in $lo..$hi {', it='__r1', occ=1, spec=RANGE_LOOP.format(it='__r1'), label='try_from_ast.exactly'),
+        ForLoop('for _ in $lo..$hi {', it='__r2', occ=2, spec=RANGE_LOOP.format(it='__r2'), label='try_from_ast.at_least'),
+        ForLoop('for _ in $lo..$hi {', it='__r3', occ=3, spec=RANGE_LOOP.format(it='__r3'), label='try_from_ast.bounded_least'),
+        ForLoop('for _ in $lo..$hi {', it='__r4', occ=4, spec=RANGE_LOOP.format(it='__r4'), label='try_from_ast.bounded_most'),
         Replace('E11', 'if flags.items.iter().any(|f| $body) {', '''
 let mut __any = false;
 let ghost fi = flags.items@;
